@@ -39,7 +39,15 @@ struct Sigma {
 Sigma sigma_of(const Store &st, const std::map<std::string, var_t> &vars,
                const std::vector<HeapObj> *heap = nullptr);
 
-GammaResult in_gamma(const AbsVal &inv, const Sigma &s, const GammaOpts &o);
+// Exports of an invariant that is queried many times and never mutated in between
+// (the caller owns the cache and must drop it when it mutates the value).
+struct GammaCache {
+  bool has_lin = false;
+  lin_cst_sys_t lin;
+};
+
+GammaResult in_gamma(const AbsVal &inv, const Sigma &s, const GammaOpts &o,
+                     GammaCache *cache = nullptr);
 
 bool interval_contains(const interval_t &i, const mpz_class &v);
 // evaluate a crab constraint on sigma: 1 holds, 0 fails, -1 mentions a variable not in sigma
